@@ -107,7 +107,7 @@ var c42Eps = map[string]c42Ep{
 // endpoint-list variants for svc1 (input ORDER matters: local-first must hold whatever the order)
 var c42EpVariants = [][]string{{}, {"A"}, {"B"}, {"B", "A"}, {"A", "B", "C"}, {"C"}, {"B", "L", "A"}, {"B", "C"}, {"T"}, {"T", "B"}, {"A", "T", "B"}}
 
-var c42SvcVariants = []string{"absent", "plain", "np", "ext", "local", "port81", "sticky"}
+var c42SvcVariants = []string{"absent", "plain", "np", "ext", "local", "port81", "sticky", "ilocal"}
 
 func c42Svc(variant string) k8sp.ServicePort {
 	si := &serviceInfo{clusterIP: net.IPv4(10, 0, 0, 1), port: 80, protocol: v1.ProtocolTCP}
@@ -122,6 +122,11 @@ func c42Svc(variant string) k8sp.ServicePort {
 		si.nodePort = 30080
 		si.loadBalancerVIPs = []net.IP{net.IPv4(5, 6, 7, 8)}
 		si.nodeLocalExternal = true
+	case "ilocal":
+		// internalTrafficPolicy=Local with externalTrafficPolicy=Cluster and a load-balancer VIP (no node
+		// port: the node-port expansion of internal-local services starts a background fix-up goroutine)
+		si.loadBalancerVIPs = []net.IP{net.IPv4(5, 6, 7, 8)}
+		si.nodeLocalInternal = true
 	case "port81":
 		si.port = 81
 	case "sticky":
@@ -249,19 +254,23 @@ func (st *c42State) expected() map[string]string {
 		// "local ones first": the first len(locals) slots hold exactly the local ready endpoints (any order among them)
 		sort.Strings(locals)
 		sort.Strings(remotes)
-		desc := func(extLocal bool) string {
-			return fmt.Sprintf("count=%d local=%d extlocal=%v locals=%v remotes=%v", len(locals)+len(remotes), len(locals), extLocal, locals, remotes)
-		}
 		si := svc.(*servicePort).ServicePort.(*serviceInfo)
-		exp[fmt.Sprintf("%s:%d/6", si.clusterIP, si.port)] = desc(false)
+		desc := func(extLocal bool, intLocalApplies bool) string {
+			return fmt.Sprintf("count=%d local=%d extlocal=%v intlocal=%v locals=%v remotes=%v", len(locals)+len(remotes), len(locals), extLocal,
+				intLocalApplies && si.nodeLocalInternal, locals, remotes)
+		}
+		// local-only "where traffic policy requires": the internal policy governs the cluster IP, node
+		// ports and load-balancer VIPs; the external policy governs node ports and load-balancer VIPs.
+		// (External IPs carry neither flag in the code; the statement does not single them out.)
+		exp[fmt.Sprintf("%s:%d/6", si.clusterIP, si.port)] = desc(false, true)
 		for _, ip := range si.externalIPs {
-			exp[fmt.Sprintf("%s:%d/6", ip, si.port)] = desc(false)
+			exp[fmt.Sprintf("%s:%d/6", ip, si.port)] = desc(false, false)
 		}
 		for _, ip := range si.loadBalancerVIPs {
-			exp[fmt.Sprintf("%s:%d/6", ip, si.port)] = desc(si.nodeLocalExternal)
+			exp[fmt.Sprintf("%s:%d/6", ip, si.port)] = desc(si.nodeLocalExternal, true)
 		}
 		if si.nodePort != 0 {
-			exp[fmt.Sprintf("%s:%d/6", c42NodePortIP, si.nodePort)] = desc(si.nodeLocalExternal)
+			exp[fmt.Sprintf("%s:%d/6", c42NodePortIP, si.nodePort)] = desc(si.nodeLocalExternal, true)
 		}
 	}
 	ds := st.dpState()
@@ -299,7 +308,8 @@ func (st *c42State) actual() (map[string]string, []string) {
 		}
 		sort.Strings(locals)
 		sort.Strings(remotes)
-		act[fe.key] = fmt.Sprintf("count=%d local=%d extlocal=%v locals=%v remotes=%v", fe.count, fe.local, fe.flags&nat.NATFlgExternalLocal != 0, locals, remotes)
+		act[fe.key] = fmt.Sprintf("count=%d local=%d extlocal=%v intlocal=%v locals=%v remotes=%v", fe.count, fe.local, fe.flags&nat.NATFlgExternalLocal != 0,
+			fe.flags&nat.NATFlgInternalLocal != 0, locals, remotes)
 	}
 	for k := range st.w.be.Contents {
 		bk := nat.BackendKeyFromBytes([]byte(k))
